@@ -109,6 +109,13 @@ func BuildFunction(x *ast.FuncDecl, file *CodeContainer) *CodeFunction {
 func BuildFieldToProperty(fieldList []*ast.Field) []CodeProperty {
 	var properties []CodeProperty
 	for _, field := range fieldList {
+		if len(field.Names) > 1 {
+			for _, name := range field.Names {
+				property := BuildPropertyField(name.Name, field)
+				properties = append(properties, *property)
+			}
+			continue
+		}
 		property := BuildPropertyField(getFieldName(field), field)
 		properties = append(properties, *property)
 	}
